@@ -198,6 +198,25 @@ func runVdrProperty(c *Ctx, prop string) {
 			}
 		}
 	}
+	for ki, k := range cnames {
+		// ... and one run per corpus program in which a consumer of files fails and mrp is restarted
+		// (in post mode, where everything is reclaimed by the final sweep of the restarted mrp, and in one other mode)
+		for vi, m := range []string{"post", []string{"rolling", "strict"}[(ki+int(c.Seed))%2]} {
+			sp := mk("corpus:"+k, corpus[k], m, 4+int64(vi))
+			sp.FailConsumer = []string{"errors", "assert", "exit"}[(ki+vi+int(c.Seed))%3]
+			sp.FailAt = (ki + vi + int(c.Seed)) % 2
+			sp.LateConsumers = false
+			specs = append(specs, sp)
+		}
+		if c.Thorough {
+			for mi, m := range modes {
+				sp := mk("corpus:"+k, corpus[k], m, 7+int64(mi))
+				sp.CrashAt = []int{6 + c.Rng.Intn(20)}
+				sp.CrashSurvive = 0.3
+				specs = append(specs, sp)
+			}
+		}
+	}
 	nGen, nOrch := 64, 12
 	if c.Thorough {
 		nGen, nOrch = 1000, 150
